@@ -375,4 +375,107 @@ def exportGRPC (cfg : Config) (xs : List (GrpcResp × Dur × Dur)) (backoffs : L
     (cancelAt : Option (Nat × Dur)) : Run :=
   requestLoop cfg (xs.map grpcAttempt) backoffs cancelAt
 
+/-! ### client construction: where the client timeout ends up
+
+The three HTTP packages assemble their `http.Client` the same way (`NewClient` of otlptracehttp, `newClient` of
+otlpmetrichttp, `newHTTPClient` of otlploghttp): an `http.Client{Transport: ourTransport, Timeout: cfg.Timeout}`
+whose transport is replaced by a customised CLONE of `ourTransport` when a TLS configuration (option or certificate
+variables) or a proxy function is configured (otlploghttp: always, its default proxy setting is non-nil). The three
+gRPC clients copy `cfg.Timeout` into `exportTimeout` whatever the dial options / supplied connection are. -/
+
+/-- the part of the resolved configuration that decides how the `http.Client` is assembled -/
+structure HttpBuild where
+  /-- `cfg.TLSCfg != nil`: WithTLSClientConfig or OTEL_EXPORTER_OTLP_[SIGNAL_]CERTIFICATE / CLIENT_* variables -/
+  tls : Bool
+  /-- `cfg.Proxy != nil`: WithProxy (otlploghttp: always) -/
+  proxy : Bool
+  /-- `cfg.Timeout`, as resolved by the configuration code (property C20) -/
+  timeout : Dur
+deriving DecidableEq, Repr
+
+/-- the `http.Client` a client sends every request with, as far as the export behaviour depends on it -/
+structure HttpClientM where
+  /-- `Transport == ourTransport` (package level, its connection pool shared by all clients) -/
+  sharedTransport : Bool
+  tlsSet : Bool
+  proxySet : Bool
+  /-- `http.Client.Timeout`: per request (attempt), 0 = none -/
+  timeout : Dur
+deriving DecidableEq, Repr
+
+/-- `NewClient` / `newClient` / `newHTTPClient`, branch by branch -/
+def newHTTPClient (b : HttpBuild) : HttpClientM :=
+  let hc : HttpClientM := { sharedTransport := true, tlsSet := false, proxySet := false, timeout := b.timeout }
+  if b.tls || b.proxy then
+    let hc := { hc with sharedTransport := false }       -- httpClient.Transport = ourTransport.Clone()
+    let hc := if b.tls then { hc with tlsSet := true } else hc
+    if b.proxy then { hc with proxySet := true } else hc
+  else hc
+
+/-- what decides how a gRPC client reaches the collector -/
+structure GrpcBuild where
+  /-- `cfg.GRPCConn != nil` (WithGRPCConn): the connection is the caller's, dial options are not used -/
+  suppliedConn : Bool
+  /-- number of dial options accumulated (credentials, service config, compressor, reconnection period, WithDialOption) -/
+  dialOpts : Nat
+  timeout : Dur
+deriving DecidableEq, Repr
+
+structure GrpcClientM where
+  ourConn : Bool
+  /-- `exportContext`: `context.WithTimeout(parent, exportTimeout)` iff `> 0` — spans the WHOLE export -/
+  exportTimeout : Dur
+deriving DecidableEq, Repr
+
+/-- `newClient` + `Start` of the three gRPC packages -/
+def newGRPCClient (b : GrpcBuild) : GrpcClientM :=
+  { ourConn := !b.suppliedConn, exportTimeout := b.timeout }
+
+/-- what the collector does with one request: its answer (already classified) arrives `after` ns after the attempt
+began; `none` = the request is accepted and never answered -/
+structure Served where
+  out : Outcome
+  after : Option Dur
+deriving DecidableEq, Repr
+
+/-- one attempt through `http.Client.Do` under `Client.Timeout = t`: an answer later than `t` (or never) is a
+`*url.Error` with `Timeout() = Temporary() = true` after exactly `t` — `newResponseError(http.Header{}, err)`, i.e.
+retryable with throttle 0. `none`: the attempt never ends (`t = 0` and no answer). -/
+def httpAttemptTimed (hc : HttpClientM) (s : Served) : Option Timed :=
+  match s.after with
+  | some d =>
+    if hc.timeout > 0 ∧ d > hc.timeout then some { out := .retryable 0, d1 := hc.timeout, d2 := 0 }
+    else some { out := s.out, d1 := d, d2 := 0 }
+  | none =>
+    if hc.timeout > 0 then some { out := .retryable 0, d1 := hc.timeout, d2 := 0 } else none
+
+/-- the attempts of a whole script; `none` as soon as one of them never ends -/
+def httpScriptTimed (hc : HttpClientM) : List Served → Option (List Timed)
+  | [] => some []
+  | s :: rest =>
+    match httpAttemptTimed hc s, httpScriptTimed hc rest with
+    | some t, some ts => some (t :: ts)
+    | _, _ => none
+
+/-- one export of an HTTP client built from `b` against a collector following `script`, on the model's clock
+(`none`: it blocks for ever in an attempt) -/
+def httpExportTimed (cfg : Config) (b : HttpBuild) (script : List Served) (bs : List Dur)
+    (cancelAt : Option (Nat × Dur)) : Option Run :=
+  (httpScriptTimed (newHTTPClient b) script).map (fun tas => requestLoop cfg (timeline 0 tas bs) bs cancelAt)
+
+/-- the instant (model clock) such an export returns -/
+def httpExportReturnTime (cfg : Config) (b : HttpBuild) (script : List Served) (bs : List Dur)
+    (cancelAt : Option (Nat × Dur)) : Option Dur :=
+  (httpScriptTimed (newHTTPClient b) script).map (fun tas => returnTimeFrom cfg cancelAt 0 (timeline 0 tas bs) bs)
+
+/-- a gRPC export against a collector that never answers: the attempt in flight ends with DeadlineExceeded (retryable,
+no throttle) when the export context's deadline is reached, i.e. `exportTimeout` after the start, and the wait that
+follows finds the context done. `none`: no deadline, the attempt never ends. -/
+def grpcStallExport (cfg : Config) (w : StopWiring) (b : GrpcBuild) (bs : List Dur) : Option Run :=
+  let gc := newGRPCClient b
+  if gc.exportTimeout > 0 then
+    some (exportRun cfg w gc.exportTimeout [{ out := .retryable 0, e1 := gc.exportTimeout, e2 := gc.exportTimeout }] bs
+      none none (some (0, 0)))
+  else none
+
 end Otel.C14
